@@ -1146,8 +1146,16 @@ def _parse_cached(
 
         # Don't cache None that _parse() returns on syntax errors
         if tree is not None:
-            pickled_data = pickle.dumps(tree)
+            try:
+                pickled_data = pickle.dumps(tree)
+            except RecursionError:
+                # pickle needs more stack per level of a deeply nested expression
+                # (e.g. a sum of 300 terms) than the parser: such a tree is
+                # returned, but not stored
+                logger.warning(f"Model with hash '{txt_hash}' is nested too deeply to be cached")
+                pickled_data = None
 
+        if tree is not None and pickled_data is not None:
             # Note that we do an 'INSERT OR REPLACE' because concurrent access
             # might mean two processes/threads try to insert an entry
             cursor.execute("BEGIN TRANSACTION;")
